@@ -95,15 +95,18 @@ func Signature(d *Diff) map[string]string {
 }
 
 type Stats struct {
-	RealCalls       int64
-	FramesParsed    int64
-	FramesOpened    int64
-	RefFramesFed    int64
-	Bytes           int64
-	SenderStricter  int64 // real stream-level sender refused a frame the model accepts (not demanded by the statement)
-	SenderLenient   int64 // real sender accepted a frame the model refuses and the real receiver accepted it too
-	ModelCutsMatch  int64 // real sender cut its frames exactly where the model does (informational)
-	MessagesChecked int64
+	RealCalls      int64
+	FramesParsed   int64
+	FramesOpened   int64
+	RefFramesFed   int64
+	Bytes          int64
+	SenderStricter int64 // real stream-level sender refused a frame the model accepts (not demanded by the statement)
+	SenderLenient  int64 // real sender accepted a frame the model refuses and the real receiver accepted it too
+	ModelCutsMatch int64 // real sender cut its frames exactly where the model does (informational)
+	// two real endpoints conform, but one of them differs from the reference codec
+	// (the wire format changed on both sides alike): outside C01
+	FormatDeviations int64
+	MessagesChecked  int64
 }
 
 func (s *Stats) Add(o *Stats) {
@@ -115,6 +118,7 @@ func (s *Stats) Add(o *Stats) {
 	s.SenderStricter += o.SenderStricter
 	s.SenderLenient += o.SenderLenient
 	s.ModelCutsMatch += o.ModelCutsMatch
+	s.FormatDeviations += o.FormatDeviations
 	s.MessagesChecked += o.MessagesChecked
 }
 
@@ -687,6 +691,14 @@ func refWire(sc *Scenario, v Variant, msgs [][]byte, stt *Stats) ([]byte, *Diff)
 }
 
 // Run replays one behaviour. nil = the real code conforms.
+//
+// The verdict is what the statement of C01 entails: the typed layer accepts any
+// length, and what one REAL endpoint sends a REAL endpoint receives (pass C,
+// compared with the model's predictions on both ends). Passes A and B compare
+// each real side with the independent reference codec; a difference there that
+// does not show between two real endpoints is a deviation from the reference
+// wire format (both sides changed alike) - outside C01, counted and noted, not
+// a violation. When pass C differs, A and B tell which side is at fault.
 func Run(sc *Scenario, v Variant, stt *Stats) *Diff {
 	if sc.RecvErr {
 		return &Diff{Broken: true, Detail: "model behaviour with receiver error"}
@@ -702,21 +714,22 @@ func Run(sc *Scenario, v Variant, stt *Stats) *Diff {
 	if d != nil {
 		return d
 	}
-	if d := runReceiver(sc, v, "B", refRaw, program(sc, nil, msgs), msgs, wantModel, rejectInfo{}, stt); d != nil {
-		return d
+	dB := runReceiver(sc, v, "B", refRaw, program(sc, nil, msgs), msgs, wantModel, rejectInfo{}, stt)
+	if dB != nil && dB.Broken {
+		return dB
 	}
 
 	// pass A: real sender, read by the reference codec
 	sr, d := runSender(sc, v, writes, stt)
 	if d != nil {
-		return d
+		return d // TypedLayerTotal, observed on the real sender
 	}
 	if sr.strict {
 		stt.SenderStricter++
 	}
-	p, d := passA(sc, v, sr, msgs, stt)
-	if d != nil {
-		return d
+	p, dA := passA(sc, v, sr, msgs, stt)
+	if dA != nil && dA.Broken {
+		return dA
 	}
 
 	// pass C: real -> real
@@ -728,11 +741,22 @@ func Run(sc *Scenario, v Variant, stt *Stats) *Diff {
 		}
 	}
 	rj := rejectInfo{}
-	if p.oversize >= 0 {
+	if p != nil && p.oversize >= 0 {
 		rj.class = p.overClass
 	}
-	if d := runReceiver(sc, v, "C", sr.raw, program(sc, sr, msgs), msgs, want, rj, stt); d != nil {
-		return d
+	if dC := runReceiver(sc, v, "C", sr.raw, program(sc, sr, msgs), msgs, want, rj, stt); dC != nil {
+		switch {
+		case dC.Broken:
+		case dA != nil:
+			dC.Detail += "; sender side: " + dA.Detail
+		case dB != nil:
+			dC.Detail += "; receiver side (reference-built frames): " + dB.Detail
+		}
+		return dC
+	}
+	if dA != nil || dB != nil {
+		stt.FormatDeviations++
+		return nil
 	}
 	if sr.lenient {
 		stt.SenderLenient++
